@@ -364,6 +364,10 @@ def _drain(ops, keys, n):
         ops.append("compact")
         ops.append("dump")
         ops.append("getall " + ",".join(keys))
+        if n <= 16 or _ % 4 == 3:
+            # every stored version must be what a read AT its timestamp returns (the property's "a read at any
+            # earlier timestamp still sees what it saw before"; the harness asks through lsmtk's verif_load_at)
+            ops.append("versions")
 
 
 def lsm_script(rng):
@@ -642,6 +646,12 @@ def lsm_eval(chk, lsmbin, idx, pol, opts, ops, stats, model_cases, top):
                     if bad:
                         problems.append({"kind": "property", "what": "get does not return the newest entry the tree holds for the key: the entry is in a file of the tree but not reachable through it",
                                          "keys": [(k, g, _show(vis.get(bytes.fromhex(k)))) for k, g in bad][:10], "replay": replay})
+        elif t[0] == "VERSIONS":
+            if t[1] == "ok":
+                stats["lsm_versions_read_at_their_timestamp"] = stats.get("lsm_versions_read_at_their_timestamp", 0) + int(t[2])
+            else:
+                problems.append({"kind": "property", "what": "an entry stored in an sst of the tree is not what a point read of its key at its timestamp returns (key@ts:got:want): " + " ".join(t[2:])[:300],
+                                 "replay": replay})
         elif t[0] == "PANIC" and len(t) > 1 and t[1] == "compact":
             pending = None
             problems.append({"kind": "property", "what": "a compaction panicked: " + ln, "replay": replay})
